@@ -1395,4 +1395,3 @@ package risc
 //@ func (*xori).MemoryWrite
 //@   ensures len(result) == 0
 //@   assigns nothing
-
